@@ -10,7 +10,7 @@ ASSUMPTIONS = ["bit-identity theorems quantify over every arithmetic (no float s
 class C03(EvalCheck):
     PROP = "C03"
     CORRESPONDENCE = "EvalModel/Dispatch vs bspline_eval.h, bspline_multi.h, cinter (all paths, both PHOTOSPLINE_NO_EVAL_TEMPLATES settings)"
-    RULE = ("tables of 1..9 dims x order patterns {all 2, all 3, all k (k in 0..5), {2,2,2,3,2,2}, {2,2,2,5,2,2}, random mixed} x float/double x "
+    RULE = ("tables of 1..9 dims x order patterns {all 2, all 3, all k (k in 0..5), the translated orders_are patterns, their near misses (extended by 1..3 dimensions, cut short, one entry off), constant-but-one, random mixed} x float/double x "
             "with and without PHOTOSPLINE_NO_EVAL_TEMPLATES (two harness builds); points: knots, float neighbours, margins, upper end, random; "
             "per point: value, every single-bit derivative mask, a random mask, gradient, one arbitrary-order derivative, call operators, C wrappers; "
             "non-trivial = some coordinate not a plain interior random point; distinct by (knots, orders, coordinate bits, masks)")
@@ -23,7 +23,7 @@ class C03(EvalCheck):
         big = n > 1000
         for ti in range(n):
             nd = rng.rint(1, 9)
-            pat = rng.choice(["c2", "c3", "const", "known", "mixed", "mixed"])
+            pat = rng.choice(["c2", "c3", "const", "known", "mixed", "mixed", "known_ext", "known_ext", "known_cut", "known_perturb", "const_but_one"])
             t = gen_table(rng, ndim=nd, max_coefs=(60000 if big else 7000), pattern=pat, coef_style=rng.choice(["rand", "posneg"]))
             qs = []
             for qi in range(6):
